@@ -455,6 +455,11 @@ class Consumer(object):
         # Do we have an auto-commit looping call?
         if self._commit_looper is not None:
             self._commit_looper.stop()
+        # Did we pre-empt a shutdown() that was still waiting for a commit?
+        if self._shutdown_d:
+            self._shutdown_d, shutdown_d = None, self._shutdown_d
+            self._shuttingdown = False
+            shutdown_d.errback(CancelledError())
         # Done stopping
         self._stopping = False
         # Keep track of state for debugging
